@@ -1002,6 +1002,7 @@ func (w *world) breakerTrial(run int, c Case) string {
 // others send in volleys: every client of a volley has its connection open and waits at a barrier,
 // then all write their request at the same instant, so that the first requests after a window
 // expires reach the re-admission path together. Clause (i) applies to every single request.
+// Kind "flaky-load" (see below): FAULTY is flaky / flapping instead of dead.
 func (w *world) hammer(run int, c Case) string {
 	// During the burst both backends answer "Connection: close" and close first: Helios then never
 	// pools or actively closes a backend connection. (With pooled connections its transport closes
@@ -1018,9 +1019,9 @@ func (w *world) hammer(run int, c Case) string {
 		// FLAKY instead of dead: one request in FlakyOneIn (by client number + request number) carries the 5xx
 		// script, every other request - and every health probe - is answered 200. Here volume IS the point
 		// (how often a success of a backend finishes right beside or right after one of its failures), so the
-		// free-running clients send back to back and every connection is kept alive: at most 24 clients over
-		// >= 2 backend entries stay within the 10 idle connections per backend that Helios pools, so no
-		// connection is opened or closed during the burst.
+		// free-running clients send back to back and every connection is kept alive: 16-64 clients spread over
+		// >= 5 backend entries (each entry has its own transport) mostly stay within the 10 idle connections per
+		// backend that Helios pools, so hardly any connection is opened or closed during the burst.
 		//
 		// The clients that send in synchronised volleys see a FLAPPING backend instead: FAULTY answers 5xx to
 		// every request of one volley and 200 to every request of the next (down for a moment, up again), 40
@@ -1047,6 +1048,7 @@ func (w *world) hammer(run int, c Case) string {
 	fail := func(msg string) { viol.CompareAndSwap(nil, msg) }
 	failed := func() bool { return viol.Load() != nil }
 
+	free := min(c.FreeRunning, c.Clients) // clients 0..free-1 send on their own, the others in volleys
 	type client struct {
 		g     int
 		xff   string
@@ -1078,7 +1080,7 @@ func (w *world) hammer(run int, c Case) string {
 		_ = cl.conn.SetDeadline(start.Add(wedgeAfter))
 		cl.n++
 		id := fmt.Sprintf("h%d-%d-%d", run, cl.g, cl.n)
-		if flaky && (down || (cl.g >= free && false) || (cl.g < free && (cl.g+cl.n)%c.FlakyOneIn == 0)) {
+		if flaky && (down || (cl.g < free && (cl.g+cl.n)%c.FlakyOneIn == 0)) {
 			w.faulty.Expect(id, boom)
 			defer w.faulty.Forget(id) // Helios may have picked GOOD
 		}
@@ -1123,7 +1125,6 @@ func (w *world) hammer(run int, c Case) string {
 	for g := range clients {
 		clients[g] = &client{g: g, xff: w.pickXFF(g), tally: map[int]int{}}
 	}
-	free := min(c.FreeRunning, c.Clients)
 	var wg sync.WaitGroup
 	for _, cl := range clients[:free] {
 		wg.Add(1)
@@ -1267,6 +1268,7 @@ func (w *world) recovery(run int) string {
 		o := probe()
 		since := time.Since(start)
 		history = append(history, fmt.Sprintf("+%v: %v", since.Round(time.Millisecond), o))
+		w.slowProbe(o)
 		if !o.Ended {
 			return fmt.Sprintf("(ii) wedged: run %d recovery probe had no end %v after it was sent; probes: %v", run, wedgeAfter, history)
 		}
@@ -1361,6 +1363,7 @@ func (w *world) recoverySwapped(run int) string {
 		w.faulty.Forget(id)
 		since := time.Since(start)
 		history = append(history, fmt.Sprintf("+%v: %v", since.Round(time.Millisecond), o))
+		w.slowProbe(o)
 		if !o.Ended {
 			return fmt.Sprintf("(ii) wedged: run %d recovery probe (roles swapped) had no end %v after it was sent; probes: %v", run, wedgeAfter, tailStrs(history, 12))
 		}
@@ -1411,6 +1414,19 @@ func (w *world) recoverySwapped(run int) string {
 		time.Sleep(40 * time.Millisecond)
 	}
 }
+
+// slowProbe: during the recovery probes every backend that answers at all answers at once, and a refusal, a
+// 502 or the proxy's own 503 involve no waiting either (normal: a few ms). A probe that nevertheless took
+// longer than slowProbeLimit says that the machine, not the proxy, is slow (observed under heavy load: 400 ms
+// for a 503 of the open breaker): recorded as an environment stall, so that a recovery window that ran out
+// meanwhile is not a verdict (RunCase runs the case again). A probe without any end is not excused.
+func (w *world) slowProbe(o outcome) {
+	if w.canary != nil && o.Ended && o.Elapsed > slowProbeLimit {
+		w.canary.add(fmt.Sprintf("recovery probe took %v (%v)", o.Elapsed.Round(time.Millisecond), o))
+	}
+}
+
+const slowProbeLimit = 250 * time.Millisecond
 
 func tailStrs(s []string, n int) []string {
 	if len(s) > n {
